@@ -87,6 +87,12 @@ for n, tier in ((1, 'quick'), (8, 'quick'), (9, 'quick'), (17, 'quick'), (32, 'q
         units = (n + 7) // 8
         job(id='C18.bitarray.n%d.%s' % (n, entry[6:]), tu='tier_a/bits.cpp', defs={'VP_N': n}, entry=entry, props=['C18', 'C11'], tier=tier,
             unwind=8 * units + 2, objbits=8, carriers=BA_CARRIERS if entry != 'proof_ba_static' else [], timeout=600, case_key='BitArrayT<%d>' % n)
+BA_SPEC = 'contracts/bitarray.spec'
+for n, tier in ((9, 'quick'), (17, 'quick'), (64, 'thorough'), (257, 'thorough')):
+    for alias, entry, enforce, replace in (('set', 'dfcc_ba_set', ['ba_set'], []), ('clear', 'dfcc_ba_clear', ['ba_clear'], []), ('get', 'dfcc_ba_get', ['ba_get'], []),
+                                           ('client', 'dfcc_ba_client', [], ['ba_set', 'ba_clear', 'ba_get'])):
+        job(id='C18.dfcc.n%d.%s' % (n, alias), tu='tier_a/bits.cpp', defs={'VP_N': n}, entry=entry, props=['C18', 'C11'], tier=tier, mode='dfcc', unwind=8 * ((n + 7) // 8) + 2, objbits=8, timeout=600,
+            dfcc={'contracts': BA_SPEC, 'enforce': enforce, 'replace': replace}, carriers=[r'BitArrayT<\d+u>::set<', r'BitArrayT<\d+u>::clear<', r'BitArrayT<\d+u>::get<'], case_key='BitArrayT<%d> contract %s' % (n, alias))
 ST_CARRIERS = [r'BitWriteStreamT<.*>::write<', r'BitReadStreamT<.*>::read<', r'StreamBufferT<.*>::operator==', r'StreamBufferT<.*>::operator!=']
 def stream_jobs(scap, w1, w2, tier):
     defs = {'VP_SCAP': scap, 'VP_W1': w1, 'VP_W2': w2, 'VP_N': 9}
@@ -470,6 +476,7 @@ QUICK_TABLE = [
     (r'^C19\.array\.cap(2_3|4_3)\.int\.da_copy_clear', None),
     (r'^C19\.array\.cap(2_3|4_3)',       None),
     (r'^C19\.array\.',                   ['C19']),
+    (r'^C18\.dfcc\.',                   ['C18']),
     (r'^C18\.bitarray\.n(9|17)\.',       None),
     (r'^C18\.bitarray\.',                ['C18']),
     (r'^C18\.stream\.c31\.',             None),
